@@ -98,6 +98,49 @@ func genC23(seed uint64) *Plan {
 		return &o
 	}
 	n := 4 + r.Intn(10)
+	if seed%3 == 0 {
+		// the DUT is the active side: it starts by itself after the reconnect interval, dials through
+		// the Dial seam (the scripted endpoint accepts or refuses), retries on the ConnectRetry timer
+		// (one minute) and starts over after every return to Idle
+		pc.Active, pc.DialTarget, pc.ReconnectUS = true, true, 2_000_000
+		pl.Peers = []PeerCfg{pc}
+		pl.Params = map[string]int64{"active": 1}
+		if r.Chance(0.4) {
+			pl.Steps = append(pl.Steps, Step{GapUS: 1000, Kind: "dial_refuse", On: true})
+		}
+		pl.Steps = append(pl.Steps, Step{GapUS: 2_500_000, Kind: "wait", Label: evWait})
+		for i := 0; i < n; i++ {
+			gap := int64(2000 + r.Intn(300_000))
+			var st Step
+			switch r.Intn(16) {
+			case 0, 1, 2:
+				st = Step{Kind: "send_open", Label: evOpenValid}
+			case 3:
+				st = Step{Kind: "send_open", Label: evOpenInvalid, Open: badOpen()}
+			case 4, 5, 6:
+				st = Step{Kind: "keepalive", Label: evKeepalive}
+			case 7:
+				st = update(false)
+			case 8:
+				st = update(true)
+			case 9:
+				st = Step{Kind: "peer_notify", Code: 6, Sub: 2, Label: evNotification}
+			case 10:
+				st = Step{Kind: "peer_close", On: r.Chance(0.5), Label: evTCPClose}
+			case 11, 12:
+				pl.Steps = append(pl.Steps, Step{GapUS: gap, Kind: "dial_refuse", On: r.Chance(0.5)})
+				continue
+			case 13:
+				st, gap = Step{Kind: "wait", Label: evWait}, 65_000_000 // beyond the ConnectRetry timer
+			default:
+				st, gap = Step{Kind: "wait", Label: evWait}, int64(300_000+r.Intn(4_000_000))
+			}
+			st.GapUS, st.Peer = gap, 0
+			pl.Steps = append(pl.Steps, st)
+		}
+		pl.TailUS = 500_000
+		return pl
+	}
 	connected := false
 	for i := 0; i < n; i++ {
 		gap := int64(2000 + r.Intn(300_000))
@@ -155,9 +198,46 @@ type c23Oracle struct {
 	state string // reference state of the session on the current connection
 	trace []string
 	conn  *Conn
+	active bool // the DUT is the active side of the session (plans with params.active)
 }
 
-func (o *c23Oracle) Init(w *World) { o.state = "idle" }
+func (o *c23Oracle) Init(w *World) { o.state = "idle"; o.active = w.Plan.Params["active"] == 1 }
+
+// what may happen to the active side's FSM merely because time passes (automatic start after
+// the reconnect interval, ConnectRetry timer, a dialled connection coming up, hold timers)
+// (transitively closed, several timers may expire between two observations: a session whose hold
+// timer runs out goes to Idle, starts again and may be in OpenSent by the next look; what time
+// alone can never do is reach OpenConfirm or Established, which need messages from the neighbour)
+var rfcTime = map[string][]string{
+	"idle":        {"idle", "connect", "active", "openSent"},
+	"connect":     {"idle", "connect", "active", "openSent"},
+	"active":      {"idle", "connect", "active", "openSent"},
+	"openSent":    {"idle", "connect", "active", "openSent"},
+	"openConfirm": {"idle", "connect", "active", "openSent", "openConfirm"},
+	"established": {"idle", "connect", "active", "openSent", "established"},
+}
+
+// BeforeStep (active side only): the FSM moves on its own between the plan's events; the
+// autonomous part of the trace must be in the model too, and the reference state follows it.
+func (o *c23Oracle) BeforeStep(w *World, i int, s *Step) {
+	if !o.active {
+		return
+	}
+	got, _, _, _ := o.observe(w)
+	ok := false
+	for _, a := range rfcTime[o.state] {
+		if a == got {
+			ok = true
+		}
+	}
+	if got != o.state {
+		o.trace = append(o.trace, fmt.Sprintf("%s ..time..> %s", o.state, got))
+	}
+	if !ok {
+		w.Env.Violate("C23", "autonomous_step_not_in_model_"+o.state, "trace %s: with nothing but time passing %s may become one of %v, the implementation is in %s", strings.Join(o.trace, " ; "), o.state, rfcTime[o.state], got)
+	}
+	o.state = got
+}
 
 // observe returns the abstract state of the session on the peer's current connection.
 func (o *c23Oracle) observe(w *World) (state string, attached bool, closed bool, nfsm int) {
@@ -170,6 +250,10 @@ func (o *c23Oracle) observe(w *World) (state string, attached bool, closed bool,
 			state = f.State
 			attached = f.RibsInitialized
 		}
+	}
+	if o.active && len(fs) > 0 {
+		// the one FSM of the actively opened session, whatever connection it currently has
+		state, attached = fs[0].State, fs[0].RibsInitialized
 	}
 	if state == "cease" {
 		state = "idle"
@@ -191,8 +275,13 @@ func (o *c23Oracle) AfterStep(w *World, i int, s *Step) {
 	got, attached, closed, _ := o.observe(w)
 	prev := o.state
 	allowed, known := rfcFSM[prev][ev]
+	if o.active && (ev == evWait || prev == "idle" || prev == "connect" || prev == "active") {
+		// the active side without an open session: whatever the neighbour sends cannot arrive, only
+		// the FSM's own timers act
+		allowed, known = rfcTime[prev], true
+	}
 	o.trace = append(o.trace, fmt.Sprintf("%s --%s--> %s", prev, ev, got))
-	if prev == "idle" && ev != evConnect {
+	if !o.active && prev == "idle" && ev != evConnect {
 		// nothing can reach a session without a connection
 		if got != "idle" {
 			w.Env.Violate("C23", "step_not_in_model", "trace %s: event %s without a connection led to %s", strings.Join(o.trace, " ; "), ev, got)
